@@ -12,10 +12,14 @@ FILE = 'cherab/tools/raytransfer/emitters.pyx'
 M = 'cherab.tools.raytransfer.emitters'
 
 
+PIPES = 'cherab/tools/raytransfer/pipelines.py'
+
+
 def check(run):
     prog = Program()
-    prog.load_many([FILE])
+    prog.load_many([FILE, PIPES])
     run.use_file(FILE)
+    run.use_file(PIPES)
     run.explanation = (
         'Decides structural necessary conditions of C10 on both integrators, both emitters and the map setters: (R1) every store '
         'into the spectrum is dominated by "source index > -1" and the index is a voxel_map value: cells mapped to -1 receive '
@@ -25,7 +29,8 @@ def check(run):
         'cells is dropped; (R3) the subscript order of voxel_map[., ., .] is the grid axis order (r, phi, z / x, y, z) with each '
         'index computed from its own coordinate and step, the phi index from an angle reduced modulo the period; (R4) the two '
         'integrators are identical modulo the coordinate-to-index block, bins = voxel_map.max() + 1 in both setters, and masked-out '
-        'cells map to -1. Does not decide chord-length accuracy, behaviour on edges/corners or angular wrap numerics.')
+        'cells map to -1; (R5) every field a ray-transfer pipeline or pixel processor accumulates into is re-initialised when an '
+        'observation starts, so a second observe() with the same pipeline object gives the same matrix. Does not decide chord-length accuracy, behaviour on edges/corners or angular wrap numerics.')
     run.assumptions = ['raysect hands integrate() the entry and exit points of the chord inside the primitive']
     classes = {c.name: c for c in prog.classes.values()}
     for n in ('CylindricalRayTransferIntegrator', 'CartesianRayTransferIntegrator', 'RayTransferEmitter', 'CylindricalRayTransferEmitter',
@@ -40,8 +45,43 @@ def check(run):
         _emitter(run, ci)
     _siblings(run, ints)
     _maps(run, classes['RayTransferEmitter'])
+    _pipelines(run, prog)
     from ..cachekey import check_caches
     check_caches(run, [m for k, m in prog.modules.items() if k.startswith('cherab.tools.raytransfer') and not k.endswith('#pxd')], 'C10-K')
+
+
+def _pipelines(run, prog):
+    """R5: accumulators of the pipelines are reset by initialise() (per observation); those of the pixel processors by __init__ (per pixel)."""
+    from ..effects import Effects, self_chain
+    run.describe('C10-R5', 'fields accumulated by update() / add_sample() are re-initialised by initialise() / __init__ of the same class')
+    eff = Effects(prog)
+    n = 0
+    for ci in sorted(prog.classes.values(), key=lambda c: c.qual):
+        if ci.mod.relpath != PIPES:
+            continue
+        for acc_m, init_m in (('update', 'initialise'), ('add_sample', '__init__')):
+            k, am = prog.find_method(ci, acc_m)
+            if am is None or acc_m not in ci.methods and not any(acc_m in b.methods for b in prog.mro(ci) if not isinstance(b, str)):
+                continue
+            if acc_m not in ci.methods:
+                continue
+            accs = sorted({self_chain(st.target) for st in ast.walk(am) if isinstance(st, ast.AugAssign) and isinstance(st.target, ast.Attribute) and self_chain(st.target)}
+                          | {self_chain(st.target.value) for st in ast.walk(am) if isinstance(st, ast.AugAssign) and isinstance(st.target, ast.Subscript)
+                             and isinstance(st.target.value, ast.Attribute) and self_chain(st.target.value)}
+                          | {self_chain(st.targets[0].value) for st in ast.walk(am) if isinstance(st, ast.Assign) and isinstance(st.targets[0], ast.Subscript)
+                             and isinstance(st.targets[0].value, ast.Attribute) and self_chain(st.targets[0].value)})
+            ik, im = prog.find_method(ci, init_m)
+            for f in accs:
+                n += 1
+                run.subject('C10-R5')
+                writes = eff.closure(ik, im).writes if im is not None else {}
+                if f in writes:
+                    run.ok('C10-R5', '%s.%s' % (ci.name, f), 'accumulated by %s, reset by %s.%s' % (acc_m, ik.name, init_m), sample=False)
+                else:
+                    run.fail('C10-R5', '%s|%s|%s|not-reset:%s' % (ci.mod.name, ci.name, init_m, f), ci.mod.relpath, (im or am).lineno,
+                             '%s.%s accumulates into %s but %s does not re-initialise it: a second observation with the same pipeline starts from the '
+                             'totals of the first, so the matrix is scaled or shifted by what was observed before' % (ci.name, acc_m, f, init_m))
+    run.floor('C10-R5', 5)
 
 
 def _spec_stores(fn, sp):
@@ -309,6 +349,7 @@ def _maps(run, ci):
 
 
 MUTANTS = [
+    dict(name='pipeline0d-sample-count-not-reset', file=PIPES, find="        self._samples = 0\n        self._bins = spectral_bins", replace="        self._bins = spectral_bins", expect='C10-R5'),
     dict(name='guard-removed', file=FILE, find="        if isource_current > -1:\n            spectrum.samples_mv[isource_current] += res\n\n        return spectrum", replace="        spectrum.samples_mv[isource_current] += res\n\n        return spectrum", occurrence=0, of=2, expect='C10-R'),
     dict(name='final-flush-removed', file=FILE, find="        if isource_current > -1:\n            spectrum.samples_mv[isource_current] += res\n\n        return spectrum", replace="        return spectrum", occurrence=1, of=2, expect='C10-R2'),
     dict(name='reset-before-flush', file=FILE, find="                    if isource_current > -1:\n                        spectrum.samples_mv[isource_current] += res  # writing results for the current source\n                    isource_current = isource\n                    res = 0",
